@@ -318,7 +318,7 @@ def run_case(spec):
                 if last is not None:
                     body = last.size + 1
                     total = evs[0]["real_bytes"]
-                    ks = sorted(set([1, 2, body - 1, body, body // 2] + [rng.randint(1, body) for _ in range(10)]))
+                    ks = sorted(set(range(1, min(body, 24) + 1)) | set([body - 1, body, body // 2] + [rng.randint(1, body) for _ in range(16)]))
                     for k in [x for x in ks if 1 <= x <= body]:
                         one_run(dict(spec, _force_fault={"sig": "cat-file --batch", "ord": 0, "mode": "fault", "term": "exit:0",
                                                         "after_bytes": total - k}, permute=0),
@@ -748,6 +748,9 @@ def one_run(spec, rng, res, model, gitdir, d, sel, roots):
     for facet, keys in FACETS.items():
         for k, want, got in O.compare_numeric(ex, js, keys):
             add(facet, ("value", k, dict(ctx, want=want, got=got)))
+            if spec.get("_force_fault"):
+                # a short read that can be noticed was answered with success AND a wrong number: every property's business
+                add("fail", ("exit-0-with-wrong-values-after-a-short-read", k, dict(ctx, want=want, got=got, rule=spec["_force_fault"])))
     # witnesses from JSON v1 (only valid-UTF-8 descriptions are judged from JSON)
     wit = {}
     for wkey in O.WITNESS:
